@@ -266,8 +266,9 @@ Definition oracle_txn (ns : bytes) (o : ostate) (t : txn_req) (obs : txn_resp) (
   let '(se', eresp) := etcd_txn se nr t in
   let seen := Z.max (o_seen o) (hdr_of obs) in
   let res := o_reserved o || txn_has_reserved t in
+  let tk := fun x => e_tick x seen in
   match listing with
-  | None => mkO se' seen res (o_codes o ++ [0%N]) true
+  | None => mkO (tk se') seen res (o_codes o ++ [0%N]) true
   | Some l =>
       let same_state := list_eqb pkv_eqb (map pk l) (listing_of_etcd se' ns) in
       let unchanged := list_eqb pkv_eqb (map pk l) (listing_of_etcd se ns) in
@@ -280,15 +281,15 @@ Definition oracle_txn (ns : bytes) (o : ostate) (t : txn_req) (obs : txn_resp) (
                           | None => false
                           end in
           match eresp with
-          | TErr => if unchanged then mkO se seen res (o_codes o) false
-                    else mkO se seen res (o_codes o ++ [0%N]) true
+          | TErr => if unchanged then mkO (tk se) seen res (o_codes o) false
+                    else mkO (tk se) seen res (o_codes o ++ [0%N]) true
           | TOk _ _ _ =>
-              if unchanged && negb in_scope then mkO se seen res (o_codes o) false
-              else mkO se seen res (o_codes o ++ [0%N]) true
+              if unchanged && negb in_scope then mkO (tk se) seen res (o_codes o) false
+              else mkO (tk se) seen res (o_codes o ++ [0%N]) true
           end
       | TOk _ _ _ =>
-          if ptxn_eqb (proj_txn t obs) (proj_txn t eresp) && same_state then mkO se' seen res (o_codes o) false
-          else mkO se' seen res (o_codes o ++ [classify_txn o t obs]) (negb same_state)
+          if ptxn_eqb (proj_txn t obs) (proj_txn t eresp) && same_state then mkO (tk se') seen res (o_codes o) false
+          else mkO (tk se') seen res (o_codes o ++ [classify_txn o t obs]) (negb same_state)
       end
   end.
 
@@ -313,15 +314,16 @@ Definition classify_range (o : ostate) (r : range_req) (obs eresp : range_resp) 
 Definition oracle_range (o : ostate) (r : range_req) (obs : range_resp) : ostate :=
   let eresp := etcd_range (o_e o) r in
   let seen := match obs with ROk h _ _ _ => Z.max (o_seen o) h | RErr => o_seen o end in
-  let o' := mkO (o_e o) seen (o_reserved o) (o_codes o) (o_stop o) in
+  let se := e_tick (o_e o) seen in
+  let o' := mkO se seen (o_reserved o) (o_codes o) (o_stop o) in
   if prange_eqb (proj_range obs) (proj_range eresp) then o'
   else if negb (read_supported (o_seen o) r) && negb ((r_rev r =? partition_magic) && negb (beqb (r_end r) [])) then
     (* outside the supported reads: an error is an acceptable answer, data is not *)
     match obs with
     | RErr => o'
-    | ROk _ _ _ _ => mkO (o_e o) seen (o_reserved o) (o_codes o ++ [0%N]) (o_stop o)
+    | ROk _ _ _ _ => mkO se seen (o_reserved o) (o_codes o ++ [0%N]) (o_stop o)
     end
-  else mkO (o_e o) seen (o_reserved o) (o_codes o ++ [classify_range o r obs eresp]) (o_stop o).
+  else mkO se seen (o_reserved o) (o_codes o ++ [classify_range o r obs eresp]) (o_stop o).
 
 Fixpoint oracle_steps (ns : bytes) (o : ostate) (steps : list step) : ostate :=
   match steps with
